@@ -197,7 +197,8 @@ theorem skel_Start_sourceLoop :
 "installed forwarder" is one atomic cell; the race-detector build of the harness checks the rest). -/
 theorem skel_SetSourceConnection :
     Skel.Bridge_SetSourceConnection =
-      ["tunnelConnMu.Lock", "CreateDataForwarder", "sourceConnMu.Lock", "sourceConnMu.Unlock", "tunnelConnMu.Unlock"] := by
+      ["tunnelConnMu.Lock", "tunnelConnMu.Unlock", "CreateDataForwarder", "sourceConnMu.Lock", "sourceConnMu.Unlock",
+       "tunnelConnMu.Unlock"] := by
   decide
 theorem skel_dynamicSourceWriter :
     Skel.dynamicSourceWriter_Write = ["sourceConnMu.RLock", "sourceConnMu.RUnlock", "sourceForwarder.Write"] := by decide
